@@ -195,8 +195,14 @@ environment-dependent band of `alloc` -/
 inductive Res | aln (a : Aln) | eos | slow
 deriving Repr
 
-/-- one `Parser.Parse()` call on the parser state; returns the state for the next call -/
-def parseOne (allocFromHeader : Bool) (o : POpts) (s : St) : R (Res × St) := do
+/-- what the header line yields -/
+inductive Header
+  | eos                                  -- nothing but blanks up to EOF: `(nil, nil)`
+  | slow                                 -- allocation band whose outcome depends on the machine
+  | counts (nbseq lenseq : Int)
+
+/-- leading blanks, `nbseq WS lenseq EOL`, the allocation of the row tables -/
+def header (allocFromHeader : Bool) (s : St) : R (Header × St) := do
   let (tok, s) ← skipLeading (s.inp.length + 3) s
   if tok == .eof then return (.eos, s)
   let nbseq ← match tok with
@@ -221,17 +227,37 @@ def parseOne (allocFromHeader : Bool) (o : POpts) (s : St) : R (Res × St) := do
   if lenseq == 0 then .error .error
   let (t, s) ← s.scan
   if t != .eol then .error .error
+  return (.counts nbseq lenseq, s)
+
+/-- the final loop of `Parse`: every sequence must have the declared length; `AddSequence` (its error is
+ignored); alphabet step -/
+def build (o : POpts) (lenseq : Int) (rows : List XRow) : R Aln :=
+  if !(rows.all fun r => (r.2.length : Int) == lenseq) then .error .error
+  else
+    let bag := rows.foldl (fun (b : Bag) r => match b.add r.1 r.2 with | some b' => b' | none => b)
+      { ignore := normIgnore o.ignore }
+    match bag.finish (normAlphabet o.alphabet) with
+    | none => .error .error
+    | some a => pure a
+
+/-- the blocks after the header -/
+def body (o : POpts) (nbseq lenseq : Int) (s : St) : R (Aln × St) := do
   let (rows, s) ← firstBlock o.strict (s.inp.length + 3) nbseq.toNat s []
   let (t, s) ← afterBlock lenseq rows s
   let s := if lenseq == firstLen rows then s.unscan else s
   let (rows, s) ← blocks lenseq (s.inp.length + 3) t s rows
-  -- build the alignment
-  if !(rows.all fun r => (r.2.length : Int) == lenseq) then .error .error
-  let bag := rows.foldl (fun (b : Bag) r => match b.add r.1 r.2 with | some b' => b' | none => b)
-    { ignore := normIgnore o.ignore }
-  match bag.finish (normAlphabet o.alphabet) with
-  | none => .error .error
-  | some a => return (.aln a, s)
+  let a ← build o lenseq rows
+  return (a, s)
+
+/-- one `Parser.Parse()` call on the parser state; returns the state for the next call -/
+def parseOne (allocFromHeader : Bool) (o : POpts) (s : St) : R (Res × St) := do
+  let (h, s) ← header allocFromHeader s
+  match h with
+  | .eos => return (.eos, s)
+  | .slow => return (.slow, s)
+  | .counts nbseq lenseq =>
+    let (a, s) ← body o nbseq lenseq s
+    return (.aln a, s)
 
 def toOutcome : R (Res × St) → Outcome (Option Aln)
   | .ok (.aln a, _) => .ok (some a)
